@@ -1,4 +1,4 @@
-From Verif Require Import Lib.Base Pcs.Model Pcs.Proofs Pcs.Node Pcs.NodeProofs Gen.PcsVectors Pcs.Vectors.
+From Verif Require Import Lib.Base Pcs.Model Pcs.Proofs Pcs.Node Pcs.NodeProofs Gen.PcsVectors Pcs.Vectors Gen.PcsClock.
 From Coq Require Import ZArith.
 
 Theorem accept_implies_all_checks :
@@ -201,3 +201,87 @@ Theorem real_tdx_vector :
   pck_stage sgxP 0 (parsed sgxP b_q_eppid) = Rej RNoPckChain.
 Proof. exact real_tdx_vector_l. Qed.
 Print Assumptions real_tdx_vector.
+
+(* ---------- growth round 3 ---------- *)
+
+(* the full pipeline (SGX and TDX) in one statement, clause by clause as the code enforces it *)
+Theorem accept_chain_and_tcb :
+  forall (P : Prims) (env : Env) (pol : Policy) (ts : Z) (raw : bytes) (c : Collateral) (out : Output),
+    verify P env pol ts raw c = Ok out ->
+    exists q, parse_quote P raw = inl q /\ ChainAndTcb P env pol ts q c out.
+Proof. exact accept_chain_and_tcb_l. Qed.
+Print Assumptions accept_chain_and_tcb.
+
+Theorem selected_level_is_first_match :
+  forall (ti : TcbInfo) (sgxsvn : list Z) (tdxsvn : option bytes) (pcesvn : N) (lv : TcbLevel),
+    get_tcb_level ti sgxsvn tdxsvn pcesvn = Ok lv ->
+    first_matching_level ti sgxsvn tdxsvn pcesvn lv /\ tl_status lv <> ST_MISSING /\ tdx_module_ok ti tdxsvn.
+Proof. exact get_tcb_level_spec. Qed.
+Print Assumptions selected_level_is_first_match.
+
+Theorem tdx_seam_attributes_checked_refuted :
+  exists P env pol ts raw c out q ti a m,
+    verify P env pol ts raw c = Ok out /\ parse_quote P raw = inl q /\ q_tee q = TEE_TDX /\
+    parse_tcbinfo P (c_tcbinfo c) = Some ti /\
+    hexdecode (ti_seam_attrs ti) = Some a /\ hexdecode (ti_seam_mask ti) = Some m /\ m = repeat 255 8 /\
+    td_seamattributes (q_body q) <> a.
+Proof. exact tdx_seam_attributes_checked_refuted_l. Qed.
+Print Assumptions tdx_seam_attributes_checked_refuted.
+
+(* the registry's entry point *)
+Theorem registry_accept_binds :
+  forall (NP : NPrims) (env : Env) (cfg0 : option TeeCfg) (ts : Z) (height : N) (node_id : bytes) (is261 : bool)
+         (rt : NodeRuntime) (reg : RegRuntime) (u : unit),
+    verify_enclave_ids NP env cfg0 ts height node_id is261 rt reg = NOk u ->
+    (nr_tee rt = None /\ rr_hw reg = 0) \/
+    exists cap d pre post a sc raw c mre mrs rd,
+      nr_tee rt = Some cap /\ ct_hardware cap = rr_hw reg /\
+      rr_deployments reg = pre ++ d :: post /\ d_version d = nr_version rt /\
+      (forall y, In y pre -> d_version y <> nr_version rt) /\
+      ct_att cap = Some a /\ d_tee d = Some sc /\
+      Binds NP env (cfg_of cfg0) ts height sc node_id cap a raw c mre mrs rd.
+Proof. exact registry_accept_binds_l. Qed.
+Print Assumptions registry_accept_binds.
+
+Theorem registry_verdict_deterministic :
+  forall (NP : NPrims) (env env2 : Env) (cfg1 cfg2 : option TeeCfg) (ts1 ts2 : Z) (h1 h2 : N) (nid1 nid2 : bytes)
+         (f1 f2 : bool) (rt1 rt2 : NodeRuntime) (reg1 reg2 : RegRuntime),
+    env = env2 -> cfg1 = cfg2 -> ts1 = ts2 -> h1 = h2 -> nid1 = nid2 -> f1 = f2 -> rt1 = rt2 -> reg1 = reg2 ->
+    verify_enclave_ids NP env cfg1 ts1 h1 nid1 f1 rt1 reg1 = verify_enclave_ids NP env2 cfg2 ts2 h2 nid2 f2 rt2 reg2.
+Proof. exact registry_verdict_deterministic_l. Qed.
+Print Assumptions registry_verdict_deterministic.
+
+(* regenerated from the source: no wall clock / randomness in the files on the verification path *)
+Theorem no_wall_clock_on_verification_path : pcs_path_wall_clock_or_random_uses = 0.
+Proof. reflexivity. Qed.
+Print Assumptions no_wall_clock_on_verification_path.
+
+Theorem verdict_depends_on_process_switches :
+  exists NP cfg ts h nid rt reg,
+    verify_enclave_ids NP (mkEnv true false []) cfg ts h nid true rt reg = NOk tt /\
+    verify_enclave_ids NP (mkEnv false false []) cfg ts h nid true rt reg = NRej (NQuote RDebugMismatch).
+Proof. exact verdict_depends_on_process_switches_l. Qed.
+Print Assumptions verdict_depends_on_process_switches.
+
+Theorem genesis_ignores_attestation :
+  forall (NP : NPrims) (env : Env) (cfg0 : option TeeCfg) (ts : Z) (height : N) (node_id : bytes) (is261 : bool)
+         (rt : NodeRuntime) (reg : RegRuntime) (g s : bool) (r : NReason),
+    g || s = true -> register_tee_check NP env cfg0 ts height node_id is261 rt reg g s <> NRej r.
+Proof. exact genesis_ignores_attestation_l. Qed.
+Print Assumptions genesis_ignores_attestation.
+
+Theorem register_tee_check_strict :
+  forall (NP : NPrims) (env : Env) (cfg0 : option TeeCfg) (ts : Z) (height : N) (node_id : bytes) (is261 : bool)
+         (rt : NodeRuntime) (reg : RegRuntime),
+    register_tee_check NP env cfg0 ts height node_id is261 rt reg false false =
+    verify_enclave_ids NP env cfg0 ts height node_id is261 rt reg.
+Proof. exact register_tee_check_strict_l. Qed.
+Print Assumptions register_tee_check_strict.
+
+Theorem report_data_binds_rek_and_node_id_refuted :
+  exists NP env cfg ts h sc rak q s1 s2 nid1 nid2 rek1 rek2,
+    nid1 <> nid2 /\ rek1 <> rek2 /\
+    cap_verify NP env cfg ts h sc nid1 true (mkCap 1 rak rek1 (Some (mkAtt 1 q 990 s1))) = NOk tt /\
+    cap_verify NP env cfg ts h sc nid2 true (mkCap 1 rak rek2 (Some (mkAtt 1 q 990 s2))) = NOk tt.
+Proof. exact report_data_binds_rek_and_node_id_refuted_l. Qed.
+Print Assumptions report_data_binds_rek_and_node_id_refuted.
